@@ -1,4 +1,4 @@
-ENTRY = {'modules': ['VirtioVerif.Props.C04'],
+ENTRY = {'modules': ['VirtioVerif.Props.C04', 'VirtioVerif.Props.C04Inv'],
  'assumptions': ['caller contract of the unsafe fns (buffers stay valid and untouched until popped; pop_used '
                  "gets the same buffers as add) — the harness's structured stream honours it, the malformed "
                  "stream deliberately does not and is compared with the model's explicit panic outcomes",
@@ -7,10 +7,19 @@ ENTRY = {'modules': ['VirtioVerif.Props.C04'],
                  'device-visible memory is observed under sequential consistency (store hook between '
                  'consecutive stores); hardware reordering is outside the model (fence presence/strength is '
                  'extracted from the source text for C02)'],
- 'explanation': 'Theorems for every state: an accepted add emits exactly one share per caller buffer, in '
-                "order, with its identity, length and the direction of its role (no 'Both' exists in the "
-                'event type), plus one device-readable share of the indirect table; a refused add and a '
-                'failed pop emit nothing; a successful pop emits exactly the matching unshares. The ledger '
-                'HAL (bounce buffers at distinct device addresses) checks every unshare tuple against its '
-                'share, double unshares, leaks after draining, that the device only resolves live ranges, '
-                "and that device-written bytes appear in the caller's buffers exactly at pop."}
+ 'explanation': 'Invariant theorems over ALL histories (Lemmas/QueueInv, QueuePop, QueueReach): the '
+                'structural invariant of the driver state (free list = duplicate-free in-range chain '
+                'disjoint from all outstanding chains, chains pairwise disjoint, num_used exact, shadow and '
+                'device-visible descriptors encode each chain) holds in every state reachable from a fresh '
+                'queue of any size n<=32768 and mode by any sequence of submissions, polls and arbitrary '
+                'device writes to its own areas, and no operation panics under the caller contract. '
+                'unshare_matches_share: the platform calls of a pop are exactly the matching images (same '
+                'range, same direction, the device address share returned) of the platform calls of the add '
+                'that created the chain; share ids are fresh. Theorems for every state: an accepted add '
+                'emits exactly one share per caller buffer, in order, with its identity, length and the '
+                "direction of its role (no 'Both' exists in the event type), plus one device-readable share "
+                'of the indirect table; a refused add and a failed pop emit nothing; a successful pop emits '
+                'exactly the matching unshares. The ledger HAL (bounce buffers at distinct device addresses) '
+                'checks every unshare tuple against its share, double unshares, leaks after draining, that '
+                "the device only resolves live ranges, and that device-written bytes appear in the caller's "
+                'buffers exactly at pop.'}
